@@ -6,6 +6,7 @@ import subprocess
 import sys
 
 import gen_paths as G
+import driver
 from core import rng
 from run_suite import canon_vars, has_recursion_error
 
@@ -175,4 +176,61 @@ def case_jobs(case):
                                           "finding": fid})
                     break
     res["nontrivial"] = sum(1 for r_ in refs if r_.get("lines")) >= 2
+    return res
+
+
+# ---- the header cache by itself: FileCacher writes a header list, Cache reads it back (model: Model.Cache.store / load) ----
+HDR_ALPHABET = list("abcXY01 _-.") + [",", '"', "'", "\n", ";", "|", "\t", "é", "日", "\u2028", "\r"]
+
+
+def gen_hdr(seed, i):
+    r = rng(seed, "hdrcache", i)
+    n = r.choice([0, 1, 1, 2, 3, 5, 8])
+    hs = []
+    for _ in range(n):
+        k = r.random()
+        if k < 0.15:
+            hs.append("")
+        elif k < 0.5:
+            hs.append(r.choice(["id", "first name", "amount", "a,b", 'say "hi"', '"', "x\ny"]))
+        else:
+            hs.append("".join(r.choice(HDR_ALPHABET) for _ in range(r.randint(1, 7))))
+    return {"headers": hs, "file": f"data/h{i % 7}.csv"}
+
+
+def case_hdrcache(case):
+    import hashlib
+    import os
+    import shutil
+
+    import real_run  # noqa: F401  (enters the private working directory)
+    from csvpath import CsvPaths
+    from csvpath.util.line_monitor import LineMonitor
+
+    res = {"case": case, "disagree": [], "oracle": [], "nontrivial": False}
+    shutil.rmtree("cache", ignore_errors=True)
+    cps = CsvPaths()
+    cacher = cps.file_manager.cacher
+    hs = case["headers"]
+    try:
+        cacher._cache_lines_and_headers(case["file"], LineMonitor(), hs)
+        cdir = cps.config.cache_dir_path
+        name = hashlib.sha256(case["file"].encode("utf-8")).hexdigest() + ".csv"
+        with open(os.path.join(cdir, name), "r", encoding="utf-8", newline="") as f:
+            text = f.read()
+        back = CsvPaths().file_manager.cacher.cache.cached_text(case["file"], "csv")
+    except Exception as e:  # noqa: BLE001
+        res["oracle"].append({"what": f"the header cache raised {e.__class__.__name__}: {e}"})
+        return res
+    m = driver.ask({"op": "hdrcache", "headers": hs, "text": text})
+    if m["text"] != text:
+        res["disagree"].append({"what": "header cache: text of the cache file", "real": text, "model": m["text"]})
+    if m["load_of"] != back:
+        res["disagree"].append({"what": "header cache: list read back", "real": back, "model": m["load_of"]})
+    inside = not any("\r" in h for h in hs)
+    if inside and back != hs:
+        res["oracle"].append({"what": "the header cache returns a different header list than was stored (warm differs from cold)",
+                              "stored": hs, "returned": back})
+    res["inside"] = inside
+    res["nontrivial"] = inside and any(c in h for h in hs for c in ',"\n')
     return res
